@@ -1,1 +1,366 @@
-//! Helpers of group 'auth' (see GUIDE.md).
+//! Helpers of group 'auth' (see GUIDE.md): independent RFC 2104 / RFC 4226 / RFC 6238 reference.
+use sha1::Sha1;
+use sha2::{Digest, Sha256, Sha512};
+
+#[derive(Debug, Clone, Copy, PartialEq, Eq)]
+pub enum RefAlgo {
+    Sha1,
+    Sha256,
+    Sha512,
+}
+
+impl RefAlgo {
+    pub fn block(self) -> usize {
+        match self {
+            RefAlgo::Sha1 | RefAlgo::Sha256 => 64,
+            RefAlgo::Sha512 => 128,
+        }
+    }
+    fn hash(self, parts: &[&[u8]]) -> Vec<u8> {
+        match self {
+            RefAlgo::Sha1 => {
+                let mut h = Sha1::new();
+                parts.iter().for_each(|p| h.update(p));
+                h.finalize().to_vec()
+            }
+            RefAlgo::Sha256 => {
+                let mut h = Sha256::new();
+                parts.iter().for_each(|p| h.update(p));
+                h.finalize().to_vec()
+            }
+            RefAlgo::Sha512 => {
+                let mut h = Sha512::new();
+                parts.iter().for_each(|p| h.update(p));
+                h.finalize().to_vec()
+            }
+        }
+    }
+}
+
+/// RFC 2104 HMAC written out by hand over the bare hash function (keys longer than the block
+/// are hashed first, shorter ones zero padded).
+pub fn ref_hmac(algo: RefAlgo, key: &[u8], msg: &[u8]) -> Vec<u8> {
+    let b = algo.block();
+    let mut k = if key.len() > b { algo.hash(&[key]) } else { key.to_vec() };
+    k.resize(b, 0);
+    let ipad: Vec<u8> = k.iter().map(|x| x ^ 0x36).collect();
+    let opad: Vec<u8> = k.iter().map(|x| x ^ 0x5c).collect();
+    let inner = algo.hash(&[&ipad, msg]);
+    algo.hash(&[&opad, &inner])
+}
+
+/// RFC 4226 HOTP value (dynamic truncation), `digits` decimal digits.
+pub fn ref_hotp(algo: RefAlgo, key: &[u8], counter: u64, digits: u32) -> u32 {
+    let mac = ref_hmac(algo, key, &counter.to_be_bytes());
+    let off = (mac[mac.len() - 1] & 0x0f) as usize;
+    let bin = ((mac[off] as u32 & 0x7f) << 24)
+        | ((mac[off + 1] as u32) << 16)
+        | ((mac[off + 2] as u32) << 8)
+        | (mac[off + 3] as u32);
+    bin % 10u32.pow(digits)
+}
+
+/// RFC 6238: counter of the time step containing `secs`.
+pub fn ref_counter(secs: u64, step: u64) -> u64 {
+    secs / step
+}
+
+/// Self-test of the reference against RFC 6238 appendix B, RFC 4226 appendix D and vectors
+/// produced with Python's hmac/hashlib (including keys longer than the block). Err = harness broken.
+pub fn ref_selftest() -> Result<usize, String> {
+    let mut n = 0;
+    // RFC 4226 appendix D (SHA1, 6 digits, key "12345678901234567890")
+    let k20 = b"12345678901234567890";
+    let d: [u32; 10] = [755224, 287082, 359152, 969429, 338314, 254676, 287922, 162583, 399871, 520489];
+    for (c, want) in d.iter().enumerate() {
+        let got = ref_hotp(RefAlgo::Sha1, k20, c as u64, 6);
+        if got != *want {
+            return Err(format!("RFC4226 vector {c}: got {got} want {want}"));
+        }
+        n += 1;
+    }
+    // RFC 6238 appendix B (8 digits, step 30)
+    let k32 = b"12345678901234567890123456789012";
+    let k64 = b"1234567890123456789012345678901234567890123456789012345678901234";
+    let times: [u64; 6] = [59, 1111111109, 1111111111, 1234567890, 2000000000, 20000000000];
+    let s1: [u32; 6] = [94287082, 7081804, 14050471, 89005924, 69279037, 65353130];
+    let s256: [u32; 6] = [46119246, 68084774, 67062674, 91819424, 90698825, 77737706];
+    let s512: [u32; 6] = [90693936, 25091201, 99943326, 93441116, 38618901, 47863826];
+    for i in 0..6 {
+        let c = ref_counter(times[i], 30);
+        for (algo, key, want) in [
+            (RefAlgo::Sha1, &k20[..], s1[i]),
+            (RefAlgo::Sha256, &k32[..], s256[i]),
+            (RefAlgo::Sha512, &k64[..], s512[i]),
+        ] {
+            let got = ref_hotp(algo, key, c, 8);
+            if got != want {
+                return Err(format!("RFC6238 vector t={} {algo:?}: got {got} want {want}", times[i]));
+            }
+            n += 1;
+        }
+    }
+    for line in include_str!("../data/hotp_vectors.txt").lines() {
+        if line.starts_with('#') || line.trim().is_empty() {
+            continue;
+        }
+        let f: Vec<&str> = line.split_whitespace().collect();
+        let algo = match f[0] {
+            "1" => RefAlgo::Sha1,
+            "256" => RefAlgo::Sha256,
+            _ => RefAlgo::Sha512,
+        };
+        let klen: usize = f[1].parse().map_err(|_| "bad vector".to_string())?;
+        let c: u64 = f[2].parse().map_err(|_| "bad vector".to_string())?;
+        let want: u32 = f[3].parse().map_err(|_| "bad vector".to_string())?;
+        let key: Vec<u8> = (0..klen).map(|i| ((i * 7 + 3) & 0xff) as u8).collect();
+        let got = ref_hotp(algo, &key, c, 8);
+        if got != want {
+            return Err(format!("python vector {line}: got {got}"));
+        }
+        n += 1;
+    }
+    Ok(n)
+}
+
+// =====================================================================================
+// World helpers shared by the authentication checks: a real IdmServer with persons whose
+// secrets the harness chose, and one-call drivers for the authentication paths.
+// =====================================================================================
+use crate::{pop, srv};
+use kanidm_proto::v1::AuthMech;
+use kanidmd_lib::credential::totp::{Totp, TotpAlgo, TotpDigits};
+use kanidmd_lib::idm::authentication::{AuthCredential, AuthState, AuthStep, ClientAuthInfo};
+use kanidmd_lib::idm::delayed::DelayedAction;
+use kanidmd_lib::idm::event::{AuthEvent, AuthResult, LdapAuthEvent, UnixUserAuthEvent};
+use kanidmd_lib::idm::server::{IdmServer, IdmServerAudit, IdmServerDelayed, IdmServerProxyWriteTransaction};
+use kanidmd_lib::prelude::*;
+use kanidmd_lib::server::identity::Source;
+use kanidmd_lib::value::Value;
+use kanidmd_lib::verif_hooks::auth::cred as credhook;
+use kanidmd_lib::verif_hooks::ident;
+use std::time::Duration;
+use time::OffsetDateTime;
+
+pub struct World {
+    pub idms: IdmServer,
+    pub delayed: IdmServerDelayed,
+    pub audit: IdmServerAudit,
+}
+
+#[derive(Debug, Clone, Default)]
+pub struct PersonSpec {
+    pub idx: u32,
+    pub password: Option<String>,
+    /// store the password as a "generated" (service style) password credential
+    pub generated: bool,
+    /// (secret, step) — SHA256, six digits
+    pub totp: Option<(Vec<u8>, u64)>,
+    pub backup_codes: Vec<String>,
+    pub posix: bool,
+    pub unix_password: Option<String>,
+    /// absolute seconds since the unix epoch
+    pub valid_from: Option<u64>,
+    pub expire: Option<u64>,
+}
+
+pub fn person_name(idx: u32) -> String {
+    format!("vperson{idx}")
+}
+
+pub fn uuid_filter(u: Uuid) -> Filter<FilterInvalid> {
+    Filter::new(f_eq(Attribute::Uuid, PartialValue::Uuid(u)))
+}
+
+/// A credential step, clonable and serialisable (the server's `AuthCredential` is neither).
+#[derive(Debug, Clone, PartialEq, serde::Serialize, serde::Deserialize)]
+pub enum Cred {
+    Anonymous,
+    Password(String),
+    Totp(u32),
+    Backup(String),
+}
+
+impl Cred {
+    pub fn real(&self) -> AuthCredential {
+        match self {
+            Cred::Anonymous => AuthCredential::Anonymous,
+            Cred::Password(p) => AuthCredential::Password(p.clone()),
+            Cred::Totp(c) => AuthCredential::Totp(*c),
+            Cred::Backup(c) => AuthCredential::BackupCode(c.clone()),
+        }
+    }
+}
+
+/// Outcome of one complete web authentication attempt.
+#[derive(Debug, Clone, PartialEq)]
+pub enum Attempt {
+    Success,
+    Denied(String),
+    /// still waiting for more factors after all supplied credentials
+    Incomplete,
+    Error(String),
+}
+
+impl World {
+    pub async fn new() -> World {
+        let qs = srv::new_qs().await;
+        let (idms, delayed, audit) = srv::new_idms(qs).await;
+        World { idms, delayed, audit }
+    }
+
+    /// Run `f` in a write transaction at `ct`; commit when it returns Ok.
+    pub async fn write<R>(
+        &self,
+        ct: Duration,
+        f: impl FnOnce(&mut IdmServerProxyWriteTransaction<'_>) -> Result<R, OperationError>,
+    ) -> Result<R, OperationError> {
+        let mut w = self.idms.proxy_write(ct).await?;
+        let r = f(&mut w)?;
+        w.commit()?;
+        Ok(r)
+    }
+
+    pub async fn create_person(&self, ct: Duration, spec: &PersonSpec) -> Result<(), OperationError> {
+        self.write(ct, |w| create_person(w, spec)).await
+    }
+
+    /// One raw authentication step.
+    pub async fn auth_step(&self, sid: Option<Uuid>, step: AuthStep, ct: Duration) -> Result<AuthResult, OperationError> {
+        let ae = AuthEvent::from_message(sid, step)?;
+        let mut a = self.idms.auth().await?;
+        let r = a.auth(&ae, ct, ClientAuthInfo::new(Source::Internal, None, None, None)).await;
+        a.commit()?;
+        r
+    }
+
+    /// Init -> Begin(mech) -> creds in order. All steps at `ct`.
+    pub async fn web_attempt(&self, name: &str, mech: AuthMech, creds: &[Cred], ct: Duration) -> Attempt {
+        let r = match self.auth_step(None, AuthStep::Init(name.to_string()), ct).await {
+            Ok(r) => r,
+            Err(e) => return Attempt::Error(format!("init: {e:?}")),
+        };
+        let sid = r.sessionid;
+        match r.state {
+            AuthState::Choose(_) => {}
+            AuthState::Denied(m) => return Attempt::Denied(m),
+            s => return Attempt::Error(format!("init: unexpected {s:?}")),
+        }
+        let r = match self.auth_step(Some(sid), AuthStep::Begin(mech), ct).await {
+            Ok(r) => r,
+            Err(e) => return Attempt::Error(format!("begin: {e:?}")),
+        };
+        match r.state {
+            AuthState::Continue(_) => {}
+            AuthState::Denied(m) => return Attempt::Denied(m),
+            s => return Attempt::Error(format!("begin: unexpected {s:?}")),
+        }
+        for c in creds {
+            let r = match self.auth_step(Some(sid), AuthStep::Cred(c.real()), ct).await {
+                Ok(r) => r,
+                Err(e) => return Attempt::Error(format!("cred: {e:?}")),
+            };
+            match r.state {
+                AuthState::Continue(_) => {}
+                AuthState::Denied(m) => return Attempt::Denied(m),
+                AuthState::Success(..) => return Attempt::Success,
+                s => return Attempt::Error(format!("cred: unexpected {s:?}")),
+            }
+        }
+        Attempt::Incomplete
+    }
+
+    /// POSIX password authentication (`auth_unix`). Ok(true) = token issued.
+    pub async fn unix_attempt(&self, target: Uuid, pw: &str, ct: Duration) -> Result<bool, OperationError> {
+        let ev = UnixUserAuthEvent::from_parts(ident::internal(), target, pw.to_string())?;
+        let mut a = self.idms.auth().await?;
+        let r = a.auth_unix(&ev, ct).await;
+        a.commit()?;
+        r.map(|t| t.is_some())
+    }
+
+    /// LDAP simple bind (`auth_ldap`). Ok(true) = bound.
+    pub async fn ldap_attempt(&self, target: Uuid, pw: &str, ct: Duration) -> Result<bool, OperationError> {
+        let ev = LdapAuthEvent::from_parts(target, pw.to_string())?;
+        let mut a = self.idms.auth().await?;
+        let r = a.auth_ldap(&ev, ct).await;
+        a.commit()?;
+        r.map(|t| t.is_some())
+    }
+
+    /// Take every queued delayed action; apply them (in order) when `process`.
+    pub async fn drain_delayed(&mut self, ct: Duration, process: bool) -> Vec<String> {
+        let mut out = Vec::new();
+        loop {
+            let mut buf: Vec<DelayedAction> = Vec::with_capacity(16);
+            let n = tokio::select! {
+                biased;
+                n = self.delayed.recv_many(&mut buf) => n,
+                _ = std::future::ready(()) => 0,
+            };
+            if n == 0 {
+                break;
+            }
+            for da in buf {
+                out.push(format!("{da:?}").chars().take(60).collect());
+                if process {
+                    if let Ok(mut w) = self.idms.proxy_write(ct).await {
+                        if w.process_delayedaction(&da, ct).is_ok() {
+                            let _ = w.commit();
+                        }
+                    }
+                }
+            }
+        }
+        out
+    }
+}
+
+pub fn totp_of(secret: &[u8], step: u64) -> Totp {
+    Totp::new(secret.to_vec(), step, TotpAlgo::Sha256, TotpDigits::Six)
+}
+
+/// Reference TOTP code (SHA256, six digits) for the step `back` steps before the one containing `ct`.
+pub fn ref_totp_code(secret: &[u8], step: u64, ct: Duration, back: u64) -> Option<u32> {
+    let c = ref_counter(ct.as_secs(), step).checked_sub(back)?;
+    Some(ref_hotp(RefAlgo::Sha256, secret, c, 6))
+}
+
+pub fn create_person(w: &mut IdmServerProxyWriteTransaction<'_>, spec: &PersonSpec) -> Result<(), OperationError> {
+    let uuid = pop::person_uuid(spec.idx);
+    let mut e = pop::person(uuid, &person_name(spec.idx));
+    if spec.posix {
+        e.add_ava(Attribute::Class, EntryClass::PosixAccount.to_value());
+    }
+    if let Some(t) = spec.valid_from {
+        e.add_ava(Attribute::AccountValidFrom, Value::new_datetime_epoch(Duration::from_secs(t)));
+    }
+    if let Some(t) = spec.expire {
+        e.add_ava(Attribute::AccountExpire, Value::new_datetime_epoch(Duration::from_secs(t)));
+    }
+    w.qs_write.internal_create(vec![e])?;
+    let ts = OffsetDateTime::UNIX_EPOCH + srv::t0();
+    let mut mods = Vec::new();
+    if let Some(pw) = &spec.password {
+        let mut c = if spec.generated {
+            credhook::generated_password_only(pw, ts)?
+        } else {
+            credhook::password_only(pw, ts)?
+        };
+        if let Some((secret, step)) = &spec.totp {
+            c = credhook::append_totp(&c, "totp", totp_of(secret, *step), ts);
+            if !spec.backup_codes.is_empty() {
+                c = credhook::set_backup_codes(&c, &spec.backup_codes, ts)?;
+            }
+        }
+        mods.push(Modify::Present(Attribute::PrimaryCredential, Value::new_credential("primary", c)));
+    }
+    if let Some(pw) = &spec.unix_password {
+        let c = credhook::password_only(pw, ts)?;
+        mods.push(Modify::Present(Attribute::UnixPassword, Value::new_credential("unix", c)));
+    }
+    if !mods.is_empty() {
+        w.qs_write.internal_modify(&uuid_filter(uuid), &ModifyList::new_list(mods))?;
+    }
+    Ok(())
+}
